@@ -127,11 +127,18 @@ func gvcHistory(name string, fs Filesys, fn string) string {
 	big := bytes.Repeat([]byte("0123456789abcdef"), 700) // multi-chunk
 	fs.Append(a.f, big)
 	m.data[a.ino] = append(m.data[a.ino], big...)
-	if s := checkAll("after appends"); s != "" {
-		return s
+	// On MemFs a descriptor is the inode number, so reading a file while its writer is still open
+	// disturbs the writer (a recorded known finding). The history therefore reads files back only
+	// after their writer is closed, and the two-descriptor scenario is only run when that finding
+	// itself is being replayed (GVC_REPLAY_KNOWN) -- otherwise every MemFs obligation would be
+	// "confirmed" by it.
+	knownMem := strings.Contains(name, "MemFs") && os.Getenv("GVC_REPLAY_KNOWN") == ""
+	if !knownMem {
+		if s := checkAll("after appends"); s != "" {
+			return s
+		}
 	}
-	// independent descriptors: a second reader while the writer is still open
-	if !want("Open", "Close", "Create") {
+	if !want("Open", "Close", "Create") || knownMem {
 		fs.Append(a.f, []byte("!"))
 	} else if msg, p := gvcPanics(func() {
 		r1 := fs.Open("d1", "a")
@@ -148,6 +155,9 @@ func gvcHistory(name string, fs Filesys, fn string) string {
 	}
 	m.data[a.ino] = append(m.data[a.ino], '!')
 	fs.Close(a.f)
+	if s := checkAll("after appends and close"); s != "" {
+		return s
+	}
 	// ReadAt edges
 	r := fs.Open("d1", "a")
 	size := uint64(len(m.data[a.ino]))
@@ -176,8 +186,15 @@ func gvcHistory(name string, fs Filesys, fn string) string {
 			got[i] = '#'
 		}
 	}
+	if knownMem {
+		// (reading back while r is open would close r's descriptor on MemFs: see above)
+		fs.Close(r)
+	}
 	if s := checkAll("after mutating ReadAt results"); s != "" {
 		return s
+	}
+	if knownMem {
+		r = fs.Open("d1", "a")
 	}
 	// links share contents, delete keeps data readable through open descriptors
 	if !fs.Link("d1", "a", "d2", "b") {
